@@ -113,9 +113,14 @@ def component(ctx, n, rounds):
     nmsg = sum(1 for b in behs for e in b['ev'] if e['a'] == 'msg')
     ngap = sum(1 for b in behs for e in b['ev'] if e['a'] == 'msg' and not e['ok'])
     nbatch = sum(1 for b in behs if any(b['plog'][i] == b['plog'][i + 1] for i in range(len(b['plog']) - 1)))
-    if not behs or ngap == 0 or nbatch == 0 or ngap == nmsg:
-        raise Infra(f'vacuous schedule generation: {len(behs)} schedules, {nmsg} messages, {ngap} gaps, {nbatch} with batches')
+    fails_ev = [(b, e) for b in behs for e in b['ev'] if e['a'] == 'fail']
+    # a failure BEHIND the first entry of a same-sequence batch (transaction): the case entry-by-entry bookkeeping gets wrong
+    nfail_tx = sum(1 for b, e in fails_ev if e['x'] > 0 and b['plog'][e['lo'] + e['x'] - 1] == b['plog'][e['lo'] + e['x'] - 2])
+    if not behs or ngap == 0 or nbatch == 0 or ngap == nmsg or nfail_tx == 0:
+        raise Infra(f'vacuous schedule generation: {len(behs)} schedules, {nmsg} messages, {ngap} gaps, {nbatch} with batches, '
+                    f'{len(fails_ev)} apply failures ({nfail_tx} inside a transaction)')
     ctx.notes['schedules'] = {'schedules': len(behs), 'messages': nmsg, 'refused_as_gap': ngap, 'with_same_sequence_batches': nbatch,
+                              'apply_failures': len(fails_ev), 'apply_failures_inside_a_transaction': nfail_tx,
                               'restarts': sum(1 for b in behs for e in b['ev'] if e['a'] == 'restart')}
     ctx.samples.append({'plog': behs[0]['plog'], 'ev': behs[0]['ev'][:10]})
     fails = []
@@ -134,6 +139,12 @@ def component(ctx, n, rounds):
                          (lambda e: e.update(e=e['e'] + 1), 'expected + 1')):
         b1 = copy.deepcopy(b0)
         mutate(next(e for e in b1['ev'] if e['a'] == 'msg' and e['ok']))
+        if replay_schedules(ctx, [b1], 'ascii', 'selftest')[0].get('pass'):
+            raise Infra(f'binding self-test failed: a corrupted prediction ({name}) was not noticed by the component replay')
+    bf, ef = next((b, e) for b, e in fails_ev if e['x'] > 0)
+    for mutate, name in ((lambda e: e.update(e=e['e'] + 1), 'expected + 1 after a failed message'), (lambda e: e.update(n=e['n'] + 1), 'applied count + 1 after a failed message')):
+        b1 = copy.deepcopy(bf)
+        mutate(b1['ev'][bf['ev'].index(ef)])
         if replay_schedules(ctx, [b1], 'ascii', 'selftest')[0].get('pass'):
             raise Infra(f'binding self-test failed: a corrupted prediction ({name}) was not noticed by the component replay')
     ctx.notes['binding_selftest_component'] = 'corrupted predictions (applied count, accepted/gap, expected) are reported by the replay'
@@ -653,7 +664,7 @@ def check_C13(ctx):
         'unexported and is exercised by the system scenarios only',
         'the stream is reliable and ordered (gRPC); loss, duplication and reordering of the model stand for overlapping senders, '
         'abandoned receivers and retransmission, and are injected at message level in the component replay only',
-        'an error returned by the WALEntryApplier in the middle of a message is outside the specification',
+        'between a failure of the WALEntryApplier in the middle of a message (KevoRepl!ApplyFail) and the retry the engine holds a half-applied message: a named deviation; the counters must not count it',
         'system samples are taken every 50 ms from a scan during which the replica engine executed no write']
     # the system scenarios (harness processes only) run while the models are checked and the components replayed
     ctx.kvh()
@@ -681,7 +692,7 @@ def check_C13(ctx):
                    'overlap, loss, duplication, reordering, stray whole-batch messages from any position, reconnects, restarts; logs with '
                    'batches sharing one sequence number) fed to the real WALBatchApplier through the real encoding in three concretisation '
                    'classes and three codecs, with the predicted accepted/gap outcome, applied entry sequence, expected and highest applied '
-                   'number checked after every delivery; (1b) sender-side component check: the real Primary (push, initial send, catch-up poll, resend) '
+                   'number checked after every delivery, and with apply failures (KevoRepl!ApplyFail: callback error / undecodable payload at entry x of an accepted message, also inside a transaction) after which nothing of the message may count and the retry is accepted from its first entry; (1b) sender-side component check: the real Primary (push, initial send, catch-up poll, resend) '
                    'serves a fake stream for TLC-generated programs (singles, transactions, ApplyBatch numbered / un-numbered, rotation, attach / '
                    'detach, the 100-entry and the 1 MB chunk cuts, batches over the push limit) and TLC validates the recorded messages against '
                    'TRACE_ReplSend: whole batches only, acceptance rule, the whole log handed over once and in order; (2) system scenarios (real primary + real replica over loopback TCP) whose traces TLC '
